@@ -159,7 +159,7 @@ func (v *VM) Load(sys fs.FS, arg string, options ...RunOption) error {
 		return fmt.Errorf("error in run: %w", err)
 	}
 	if len(rets) > 0 {
-		return fmt.Errorf("unexpected returns: %v", rets)
+		return fmt.Errorf("error in run: unexpected returns: %v", rets)
 	}
 	return nil
 }
